@@ -42,7 +42,7 @@ EXPLANATION = (
     "Driver mps-record-histories: random histories over canonicalize(_)/canonize, shift_orthogonality_center, "
     "left/right_canonicalize(_), gate(_) in every MPS mode, gate_split(_), gate_with_auto_swap(_), gate_with_submpo(_), "
     "gate_nonlocal(_), swap_sites_with_compress(_), swap_site_to(_), compress_site, singular_values, schmidt_values, entropy, "
-    "schmidt_gap, magnetization, partial_trace_to_dense_canonical, local_expectation_canonical, "
+    "schmidt_gap, bipartite_schmidt_state, magnetization, partial_trace_to_dense_canonical, local_expectation_canonical, "
     "compute_local_expectation_canonical, measure(_), sample_configuration, sample. Four contracts per operation: the record "
     "is sound for the object the caller goes on using (isometry defects recomputed with numpy), flagged left_inds are "
     "isometries, the state equals the dense reference (and the receiver of a non-in-place call is unchanged), the returned "
